@@ -338,6 +338,36 @@ class Effects(object):
                 if f.attr in MUTATORS or not _looks_pure_module_call(f):
                     self._obj_sym(f.value, out)
 
+    def increment_of(self, node):
+        """(target term, op, amount term, written symbols) if the node is `x += e`, `x -= e`, `x = x + e`, `x = x - e`
+        or `x = e + x` with x a local or self attribute and e not depending on x; else None"""
+        k = ('inc', node.id)
+        if k in self._cache:
+            return self._cache[k]
+        r = None
+        a = node.ast
+        if node.kind == 'stmt' and not any(isinstance(p_, (ast.For, ast.While)) for p_ in node.parents):
+            # (inside a loop the chain x == t + e + e + ... would never converge)
+            tgt = op = amt = None
+            if isinstance(a, ast.AugAssign) and isinstance(a.op, (ast.Add, ast.Sub)):
+                tgt, op, amt = a.target, a.op, a.value
+            elif isinstance(a, ast.Assign) and len(a.targets) == 1 and isinstance(a.value, ast.BinOp) and isinstance(a.value.op, (ast.Add, ast.Sub)):
+                tk = unparse(a.targets[0])
+                if unparse(a.value.left) == tk:
+                    tgt, op, amt = a.targets[0], a.value.op, a.value.right
+                elif isinstance(a.value.op, ast.Add) and unparse(a.value.right) == tk:
+                    tgt, op, amt = a.targets[0], a.value.op, a.value.left
+            if tgt is not None and isinstance(tgt, (ast.Name, ast.Attribute)):
+                w = set()
+                self.target_syms(tgt, w)
+                xt = self.tb.term(tgt)
+                et = self.tb.term(amt)
+                wr, _ = self.of(node)
+                if not xt.volatile and not et.volatile and not (et.deps & wr) and et.node is not None and xt.base is None:
+                    r = (xt, op, et, frozenset(w))
+        self._cache[k] = r
+        return r
+
     def of(self, node):
         """(written symbols, generated literals) of a CFG node"""
         k = node.id
@@ -432,18 +462,40 @@ def _calls(a):
     return out
 
 
+def _dead(deps, written, wild, immune):
+    return bool(deps & written) or (wild and any(x.startswith('A:') and x not in immune for x in deps))
+
+
 def kill(facts, written, immune=frozenset()):
+    """facts surviving a write to `written`.  Before an equality `a == T` is dropped because T is overwritten,
+    the equalities between the surviving partners of T are kept (`a == T, b == T` -> `a == b`): both held the
+    value T had before the write."""
     if not written:
         return facts
     wild = 'A:*' in written
     out = []
     changed = False
+    partners = None
     for l in facts:
         d = lit_deps(l)
-        if (d & written) or (wild and any(x.startswith('A:') and x not in immune for x in d)):
+        if _dead(d, written, wild, immune):
             changed = True
+            if l[0] == 'eq':
+                a, b = l[1], l[2]
+                da, db = _dead(a.deps, written, wild, immune), _dead(b.deps, written, wild, immune)
+                if da != db:
+                    gone, keep = (a, b) if da else (b, a)
+                    if not keep.volatile:
+                        if partners is None:
+                            partners = {}
+                        partners.setdefault(gone.key, []).append(keep)
             continue
         out.append(l)
+    if partners:
+        for key in partners:
+            ps = sorted(set(partners[key]), key=lambda t: t.key)
+            for i in range(len(ps) - 1):
+                out.append(('eq', ps[i], ps[i + 1]))
     return frozenset(out) if changed else facts
 
 
@@ -542,6 +594,22 @@ class Explorer(object):
             node = cfg.nodes[nid]
             written, gens = self.eff.of(node)
             after = kill(fs, written, self.immune)
+            inc = self.eff.increment_of(node)
+            if inc is not None:
+                # x += e / x = x + e: what was known to equal x before now equals x - e, i.e. x == t + e
+                xt, op, et, wsyms = inc
+                extra = []
+                for l in fs:
+                    if l[0] != 'eq':
+                        continue
+                    other = l[2] if l[1] == xt else (l[1] if l[2] == xt else None)
+                    if other is None or other.volatile or (other.deps & wsyms) or other.node is None and other.const is None:
+                        continue
+                    on = other.node if other.node is not None else ast.Constant(value=other.const[0])
+                    nt = self.tb.term(ast.BinOp(left=on, op=op, right=et.node))
+                    extra.append(('eq', xt, nt))
+                if extra:
+                    after = frozenset(after | set(extra))
             ncnt = cnt
             ncnt_exc = cnt
             if track is not None:
